@@ -102,7 +102,36 @@ class Walk:
                 return const(k["int"])
             if "fn" in k:
                 return ("fn", k["fn"])
+            if "promoted" in k and k.get("uneval"):
+                return self._promoted("%s::{promoted#%s}" % (k["uneval"], k["promoted"]))
         return TOP
+
+    def _promoted(self, pid):
+        """value of a promoted constant (`&BlockSeverity::Error`, `&["a", "b"]`): its straight-line body
+        evaluated on an empty environment"""
+        cache = self.__dict__.setdefault("_prom", {})
+        if pid in cache:
+            return cache[pid]
+        pb = self.ctx.facts.bodies.get(pid)
+        val = TOP
+        if pb is not None and len([x for x in pb.blocks if not x["cleanup"]]) <= 2:
+            env = {}
+            sub = Walk(self.ctx, pb, [])
+            for blk in pb.blocks:
+                if blk["cleanup"]:
+                    continue
+                for s in blk["stmts"]:
+                    if s["k"] == "assign":
+                        sub.write_place(env, s["lhs"], sub.rvalue(env, s["rv"]))
+            v0 = env.get(0, TOP)
+            # a reference to a temporary of the promoted body: hand out the value itself
+            seen = 0
+            while v0[0] == "ref" and seen < 4:
+                v0 = sub.read_place(env, {"l": v0[1], "p": [_thaw(x) for x in v0[2]]})
+                seen += 1
+            val = v0
+        cache[pid] = val
+        return val
 
     def deref_val(self, env, v, depth=0):
         while v[0] == "ref" and depth < 12:
@@ -124,7 +153,7 @@ class Walk:
                     if all(isinstance(e, dict) and ("f" in e or "dc" in e) or e == "deref" for e in rest):
                         return ("ref", base[1], tuple(base[2]) + tuple(_freeze(e) for e in rest), bool(rv.get("mut")))
                 v = self.read_place(env, pl)
-                return v if v[0] in ("sym", "const") else TOP
+                return v if v[0] in ("sym", "const", "adt", "tuple", "list", "iter") else TOP
             if all(isinstance(e, dict) and ("f" in e or "dc" in e) for e in pl["p"]):
                 return ("ref", pl["l"], tuple(_freeze(e) for e in pl["p"]), bool(rv.get("mut")))
             return TOP
